@@ -144,6 +144,9 @@ func (e *Engine) runPath(pkg *ssa.Package, entry *ssa.Function, prefix []int64) 
 				res.status = "infeasible"
 			case r.reason == "assertion failed" || r.reason == "deadlock" || r.reason == "goroutine panic":
 				res.status = "done"
+			case e.bud.Termination && strings.HasPrefix(r.reason, "TRUNCATED") && !strings.Contains(r.reason, "goroutines"):
+				e.failNow("truncated", "the operation does not terminate within the instruction/call-depth budget", "")
+				res.status = "done"
 			default:
 				res.status, res.problem = "problem", r.reason
 			}
